@@ -267,6 +267,9 @@ pub fn run(ctx: &Ctx) -> i32 {
         let strat = move || (recipe_strategy(len), any::<[u8; 8]>(), any::<u64>()).prop_map(|(prog, p, vseed)| R17 { prog, p, vseed }).boxed();
         st.merge(ctx.run_prop(name, total / 2, strat, move |r| build(&cfg, r)));
     }
+    if ctx.tier == Tier::Thorough {
+        st.merge(ctx.run_fuzz(10000, ctx.threads, &dispatch));
+    }
     finish(
         ctx,
         st,
